@@ -14,9 +14,9 @@ import (
 
 func init() {
 	register(&Rule{
-		ID: "AC", Props: []string{"C15", "C19"}, Min: 3,
+		ID: "AC", Props: []string{"C15", "C19", "C05"}, Min: 3,
 		Doc: `table loops cover the whole table: in pkg/obikmer every counting loop 'for i := 0; i < K; i++' whose body indexes a fixed-size array [N]T (or a pointer to one:
-the 256-entry 4-mer tables) with i must have K == N or K == len(array): a smaller bound silently ignores the last 4-mers (TTTT), so the shared-4-mer counts the prefilters
+the 256-entry 4-mer tables), or a slice made with the constant length N in the same function (the per-worker 4-mer position index), with i must have K == N or K == len(array): a smaller bound silently ignores the last 4-mers (TTTT), so the shared-4-mer counts the prefilters
 rely on are under-estimated and qualifying references are pruned.`,
 		Run: runAC,
 	})
@@ -76,6 +76,23 @@ func runAC(c *Ctx, s *Sink) {
 				}
 				return true
 			})
+			if N < 0 {
+				// a slice whose length is fixed by a make(T, K) with constant K in this function
+				ast.Inspect(f.Body, func(m ast.Node) bool {
+					if ix, ok := m.(*ast.IndexExpr); ok && N < 0 {
+						if id, ok := ast.Unparen(ix.Index).(*ast.Ident); ok && info.ObjectOf(id) == ivo {
+							if tv, ok := info.Types[ix.X]; ok {
+								if _, isSlice := tv.Type.Underlying().(*types.Slice); isSlice {
+									if k, ok := constMakeLen(info, fd, tv.Type); ok {
+										N, arrName = k, types.ExprString(ix.X)
+									}
+								}
+							}
+						}
+					}
+					return true
+				})
+			}
 			if N < 0 {
 				return true
 			}
@@ -194,4 +211,34 @@ func runPBPair(c *Ctx, s *Sink) {
 			s.Pass(nil, key, fd.Pos(), "both result lists are truncated together and appended together")
 		}
 	}
+}
+
+// constMakeLen: the function contains make(T, K) with a constant K for exactly this slice type T, and
+// every such make uses the same K.
+func constMakeLen(info *types.Info, fd *ast.FuncDecl, t types.Type) (int64, bool) {
+	var k int64 = -1
+	ok := true
+	ast.Inspect(fd.Body, func(n ast.Node) bool {
+		call, isCall := n.(*ast.CallExpr)
+		if !isCall || len(call.Args) < 2 {
+			return true
+		}
+		if id, isId := call.Fun.(*ast.Ident); !isId || id.Name != "make" {
+			return true
+		}
+		if !types.Identical(info.TypeOf(call.Args[0]), t) {
+			return true
+		}
+		v, isConst := constInt(info, call.Args[1])
+		if !isConst {
+			ok = false
+			return true
+		}
+		if k >= 0 && v != k {
+			ok = false
+		}
+		k = v
+		return true
+	})
+	return k, ok && k > 0
 }
